@@ -26,6 +26,7 @@ def run(ctx):
     output_failures(ctx)
     output_limit_sweep(ctx, quick)
     malformed_inputs(ctx, quick)
+    malformed_command_lines(ctx)
     ctx.assume('stdio, wait, dup and freopen are stubs returning arbitrary results within their documented contracts; FLEX_EXIT/longjmp is a stub that records the status and ends the path')
     ctx.assume('cbmc 6.11 + MiniSat sound; --unwinding-assertions on every query')
     ctx.out_of_bound.append('termination and crash-freedom of the whole pipeline (yyparse + 280 scanner actions + NFA/DFA construction + fork/exec of m4) on arbitrary rule files: one token of flex\'s own scanner already exceeds reach (DESIGN section 2); the real-binary observations below sample it')
@@ -204,6 +205,31 @@ MALFORMED = [
     ('unclosed_action', '%%\na { foo(;\n%%\n'),
     ('binary_junk', ''.join(chr((i * 37 + 11) % 256) for i in range(600))),
 ]
+
+
+def malformed_command_lines(ctx):
+    """Real binary on malformed command lines (observation): every option of the manual that takes a required
+    argument, given as the last word without one, must end in a non-zero status after a diagnostic."""
+    wd = ctx.subdir('cmdline')
+    spec = b'%%\na ;\n%%\n'
+    for opt in ('-o', '-P', '-S', '-D', '--outfile', '--prefix', '--skel', '--yyclass', '--emit', '--backup-file'):
+        rc, so, se = _flex(ctx, ['-t', opt], wd, inp=spec, timeout=60)
+        problems = []
+        if rc == -999:
+            problems.append('does not terminate')
+        elif rc < 0 or rc >= 128:
+            problems.append('killed by signal / abnormal status %s' % rc)
+        elif rc == 0:
+            problems.append('status 0 although the required argument is missing')
+        elif not se.strip():
+            problems.append('non-zero status without a diagnostic')
+        name = 'cmdline_missing_arg_' + opt.strip('-').replace('-', '_') + ('_long' if opt.startswith('--') else '')
+        st = 'ok'
+        if problems:
+            st = ctx.violation(name, 'flex %s (argument missing): %s' % (opt, '; '.join(problems)), dict(args=['-t', opt], rc=rc, stderr=se[:500]),
+                               key=dict(entry=name, engine='flex-run', assertion='robust exit'))
+            st = 'violated' if st == 'violation' else 'known-finding'
+        ctx.record(name, st, engine='flex-run', detail='rc=%s %s' % (rc, se.strip()[:100]))
 
 
 def malformed_inputs(ctx, quick):
